@@ -200,3 +200,54 @@ func H_C04_parsefile() {
 	}
 	verifReach("end")
 }
+
+// symbolic bytes inside a string literal (value or key): escape sequences of every spelling, complete,
+// cut short or malformed, at the end of the literal or followed by more text. The parser must not panic,
+// must return exactly one of (container, error), and the same outcome twice.
+func H_C04_total_strings() {
+	free := 4
+	tail := 3
+	if verifTier() > 0 {
+		free = 5
+		tail = 5
+	}
+	verifBound("STRING_BODY_BYTES", free)
+	verifBound("ESCAPE_TAIL_BYTES", tail)
+	var body string
+	switch nondetIntRange(0, 2) {
+	case 0:
+		// any printable-ASCII bytes (quotes and backslashes included)
+		body = hAscii(nondetIntRange(0, free))
+	case 1:
+		// a backslash escape followed by arbitrary printable bytes: \u with too few / non-hex digits, \x, \0, unknown letters
+		body = "\\" + hAscii(nondetIntRange(0, tail))
+	default:
+		// a \u escape denoting a surrogate half (not decodable on its own) followed by arbitrary printable bytes:
+		// complete pairs, half pairs, a second escape cut short
+		d := nondetByte()
+		verifAssume(verifOr(verifAnd(d >= '8', d <= '9'), verifOr(verifAnd(d >= 'a', d <= 'f'), verifAnd(d >= 'A', d <= 'F'))))
+		h2, h3 := hHexDigitC(nondetIntRange(0, 2)), hHexDigitC(nondetIntRange(0, 2))
+		body = "\\u" + string([]byte{'d', d, h2, h3}) + hAscii(nondetIntRange(0, tail))
+	}
+	var s string
+	isList := true
+	switch nondetIntRange(0, 2) {
+	case 0:
+		s = `["` + body + `"]`
+	case 1:
+		isList = false
+		s = `{"` + body + `":1}`
+	default:
+		isList = false
+		s = `{"k":"` + body + `"}`
+	}
+	c, err, p := hParseAny(isList, s)
+	verifAssert(!p, "parsing never panics")
+	verifAssert((c == nil) != (err == nil), "parsing returns either a container with a nil error or no container with an error")
+	c2, err2, p2 := hParseAny(isList, s)
+	verifAssert(!p2 && (c2 == nil) == (c == nil) && (err2 == nil) == (err == nil), "the same input gives the same outcome")
+	if c != nil && c2 != nil {
+		verifAssert(hExact(hSnapAny(c), hSnapAny(c2)), "the same input gives the same container")
+	}
+	verifReach("end")
+}
